@@ -346,7 +346,70 @@ pub fn replay(args: &[String]) {
         }
         if s.samples.len() < 4 && s.evaluations % 20011 < 3 { s.sample(c.clone()); }
     }
+    large_pdus(&mut s);
     s.print();
+}
+
+/// The layout table's size rules (router key: 32 + |info|, error: 16 + |pdu| + |text|) at sizes the model does not enumerate:
+/// PDUs around and beyond 64 KiB.  Written by the library, length field = octets written, read back as the same item (or skipped
+/// to exactly its end) - the wire format's length field has 32 bits, nothing in it stops at 16.
+fn large_pdus(s: &mut Summary) {
+    for n in [65_503usize, 65_504, 65_505, 70_000, 200_000] {
+        for ver in [1u8, 2] {
+            let r = guarded(|| -> Result<(), String> {
+                let info: Vec<u8> = (0..n).map(|i| (i * 7 + 3) as u8).collect();
+                let item = Payload::router_key([0x5Au8; 20].into(), Asn::from_u32(64496), RouterKeyInfo::try_from(info).map_err(|e| e.to_string())?);
+                let x = pdu::Payload::new(ver, 1, item.as_ref());
+                let bytes = write_bytes(|w| async move { x.write(w).await });
+                if bytes.len() != 32 + n || u32::from_be_bytes([bytes[4], bytes[5], bytes[6], bytes[7]]) as usize != bytes.len() {
+                    return Err(format!("{} octets written, length field {}", bytes.len(), u32::from_be_bytes([bytes[4], bytes[5], bytes[6], bytes[7]])));
+                }
+                for chunk in [4096usize, 7] {
+                    let mut rd = Counting::new(bytes.clone(), chunk);
+                    match block(pdu::Payload::read(&mut rd)) {
+                        Ok(Ok(Some(p))) => match p.to_payload() {
+                            Ok((Action::Announce, back)) if back == item && rd.consumed() == bytes.len() => {}
+                            other => return Err(format!("reads back as {:?} after {} of {} octets", other.map(|x| x.0), rd.consumed(), bytes.len())),
+                        },
+                        other => return Err(format!("Payload::read fails on the library's own {}-octet router key PDU: {:?}", bytes.len(), other.map(|_| ()).map_err(|e| e.to_string()))),
+                    }
+                    let mut rd = Counting::new(bytes.clone(), chunk);
+                    if block(pdu::RouterKey::read(&mut rd)).is_err() || rd.consumed() != bytes.len() {
+                        return Err(format!("RouterKey::read fails on the library's own {}-octet PDU", bytes.len()));
+                    }
+                }
+                Ok(())
+            });
+            match r {
+                Ok(Ok(())) => {}
+                Ok(Err(m)) => s.violation("pdu:large:router-key", format!("router key with {n} octets of key information, version {ver}: {m}"), json!({"info_len": n, "ver": ver})),
+                Err(m) => s.violation("pdu:panic", m, json!({"info_len": n, "ver": ver})),
+            }
+            s.evals(1);
+        }
+    }
+    for n in [65_519usize, 65_520, 65_521, 300_000] {
+        let r = guarded(|| -> Result<(), String> {
+            let e = pdu::Error::new(1, 2, [0u8; 0], vec![b'x'; n]);
+            let mut bytes = write_bytes(|w| async move { e.write(w).await });
+            if bytes.len() != 16 + n {
+                return Err(format!("{} octets written", bytes.len()));
+            }
+            bytes.extend_from_slice(&[0xEE; 9]);     // what follows on the stream is not the error PDU's
+            let mut rd = Counting::new(bytes.clone(), 5000);
+            let ok = block(async { match pdu::Header::read(&mut rd).await { Ok(h) => pdu::Error::skip_payload(h, &mut rd).await.is_ok(), Err(_) => false } });
+            if !ok || rd.consumed() != 16 + n {
+                return Err(format!("skip_payload ok = {ok}, consumed {} of the PDU's {} octets", rd.consumed(), 16 + n));
+            }
+            Ok(())
+        });
+        match r {
+            Ok(Ok(())) => {}
+            Ok(Err(m)) => s.violation("pdu:large:error", format!("error PDU with {n} octets of text: {m}"), json!({"text_len": n})),
+            Err(m) => s.violation("pdu:panic", m, json!({"text_len": n})),
+        }
+        s.evals(1);
+    }
 }
 
 // --------------------------------------------------------------------------
